@@ -326,6 +326,24 @@ def tt_oracle(ops, answers, mate_bound=48000):
             just = None
     return None
 
+def tt_clear_cycles(ctx, tt_size, mate_bound=48000):
+    """records, then N clears in a row (N around every power of two up to 1024: a clear that merely ages entries out by a
+    wrapping counter revives them after a full cycle), then probes: nothing may be found"""
+    rng = random.Random(ctx.seed + 77)
+    for n in (1, 2, 3, 127, 128, 129, 255, 256, 257, 511, 512, 513, 1023, 1024, 1025):
+        keys = [rng.getrandbits(64) for _ in range(4)] + [0, tt_size - 1]
+        ops = [('r', k, rng.randint(-900, 900), rng.choice([3, 8, 64]), 'E', rng.randint(0, 20)) for k in keys]
+        ops += [('c',)] * n
+        ops += [('p', k, 1, -50000, 50000, 5) for k in keys]
+        text = tt_ops_text(ops)
+        out = ctx.corr('tt c ; ' + text)
+        ctx.count('clear-cycle-sequences')
+        answers = [x for x in out if re.fullmatch(r'-?\d+', x)]
+        bad = tt_oracle(ops, answers, mate_bound) if len(answers) == len(keys) else (len(ops) - 1, 'no answer')
+        if bad:
+            ctx.oracle_fail('entry-survives-clears', 'tt c ; ' + text[:200] + f' ... ({n} clears)', {'clears': n, 'reason': bad[1], 'answers': answers})
+
+
 def check_C08(ctx):
     r, m = consts_compare(ctx, ['TT_SIZE', 'UNKNOWN_SCORE', 'MATE_BOUND', 'MATE_VALUE', 'MAX_PLY'])
     tt_size = int(r.get('TT_SIZE', '2097152'))
@@ -334,6 +352,7 @@ def check_C08(ctx):
     nseq = 400 if ctx.quick else 6000
     for seq in load_regressions('C08'):
         ctx.corr('tt c ; ' + seq)
+    tt_clear_cycles(ctx, tt_size, mate_bound)
     for i in range(nseq):
         ops = tt_sequence(rng, tt_size, rng.choice([5, 20, 60]))
         text = tt_ops_text(ops)
@@ -472,6 +491,16 @@ def synthetic_positions(ctx):
                 b2[sq] = pc.upper()
                 if pc == 'p' and (sq < 8 or sq >= 56): continue
                 out.append(board_to_rows(b2) + ' b KQkq - 0 1')
+    # one blocker (own or enemy knight / bishop) on each square between king and rook, for each of the four castlings
+    for sq in (57, 58, 59, 61, 62, 1, 2, 3, 5, 6):
+        for pc in 'NnBb':
+            for side in 'wb':
+                b = board_from_rows(['r3k2r', '8', '8', '8', '8', '8', '8', 'R3K2R'])
+                b[sq] = pc
+                out.append(board_to_rows(b) + f' {side} KQkq - 0 1')
+                b = board_from_rows(['r3k2r', 'pppppppp', '8', '8', '8', '8', 'PPPPPPPP', 'R3K2R'])
+                b[sq] = pc
+                out.append(board_to_rows(b) + f' {side} KQkq - 0 1')
     out += pawn_families(ctx)
     out += ep_pin_families()
     # keep only positions the rules accept as legal (side not to move not in check)
@@ -1399,6 +1428,17 @@ def check_C06(ctx):
             audit_trace(ctx, f'search {pos} ; depth={d} trace=full', so, hist, cache, abs_cache)
         # larger searches, cold and warm table: digest against the model only
         so2 = run_search(ctx, pos, f'depth={d + 1} trace=digest tt=keep')
+    # special roots: en-passant captures that would uncover an attack on the own king (the legality test of `make` must
+    # see the board without the captured pawn), castling through blockers
+    rng = random.Random(ctx.seed + 6)
+    specials = [f for f in ep_pin_families() if legal_info(ctx, f)]
+    specials = rng.sample(specials, min(len(specials), 12 if ctx.quick else 200))
+    for fen in specials:
+        ident = ' '.join(fen.split()[:4])
+        so = run_search(ctx, 'fen ' + fen, 'depth=2 trace=full')
+        ctx.count('special-roots')
+        if len(so.evs) < 60000:
+            audit_trace(ctx, f'search fen {fen} ; depth=2 trace=full', so, {ident}, cache, abs_cache)
     # deep lines: the ply limit (sparse endgames reach ply 63 through check extensions and depth 64)
     for fen, d in [('4k3/8/8/8/8/8/8/4K3 w - - 0 1', 64), ('8/8/8/4k3/8/4K3/4P3/8 w - - 0 1', 30), ('4k3/8/8/8/8/8/8/4K3 w - - 0 1', -1)]:
         so = run_search(ctx, 'fen ' + fen, f'depth={d} trace=digest', model=False)
@@ -1785,6 +1825,7 @@ def strip_time(lines):
 
 def check_C18(ctx):
     rng = ctx.gen.rng
+    tt_clear_cycles(ctx, 2097152)
     roots = search_roots(ctx, 30 if ctx.quick else 400)
     # in-process: the same search from the same state twice; the model is a function of (position, history, table)
     for base, moves, fen, info in roots:
@@ -1843,10 +1884,32 @@ def check_C18(ctx):
     ctx.sample({'input': f'search {pos_args(*roots[0][:2])} ; depth=4 trace=digest (twice)'})
 
 
+def promo_check_families():
+    """the side to move is in check from a rook on its promotion row and can answer by capturing it with a pawn that
+    promotes (all four promotions are distinct answers, some of them stalemate or lose the piece): both colours, every
+    file, both capture directions, several enemy-king squares"""
+    out = []
+    for white in (True, False):
+        for f in range(1, 7):
+            for df in (-1, 1):
+                for bk in (8, 15, 23, 16, 48, 55):
+                    b = ['1'] * 64
+                    rook_sq = f                      # row 0 (rank 8)
+                    king_sq = 16 + f                 # row 2 (rank 6), same file: in check
+                    pawn_sq = 8 + f + df             # row 1 (rank 7)
+                    if bk in (rook_sq, king_sq, pawn_sq) or abs(bk % 8 - f) <= 1 and bk // 8 <= 3: continue
+                    b[rook_sq], b[king_sq], b[pawn_sq], b[bk] = 'r', 'K', 'P', 'k'
+                    if not white:
+                        b = [c.swapcase() if c != '1' else c for c in b]
+                        b = [b[(7 - i // 8) * 8 + i % 8] for i in range(64)]
+                    out.append(board_to_rows(b) + (' w' if white else ' b') + ' - - 0 1')
+    return out
+
+
 def check_C19(ctx):
     consts_compare(ctx, ['MATE_VALUE', 'INFINITY', 'MAX_PLY'] + C16_ROWS)
     roots = search_roots(ctx, 220 if ctx.quick else 5000)
-    extra = [(f, [], f, legal_info(ctx, f)) for f in load_regressions('C19')]
+    extra = [(f, [], f, legal_info(ctx, f)) for f in load_regressions('C19') + promo_check_families()[:: (4 if ctx.quick else 1)]]
     for base, moves, fen, info in extra + roots:
         if not info or info[3] != 'no': continue
         if int(fen.split()[4]) >= 90: continue
